@@ -89,6 +89,23 @@ func c06CorpusScripts() map[string][]string {
 			"mkcommit "+T+" "+S+" 4",
 			ack(sg(A[5]), S, 4, 1, c06PoolAckRelayer(4)),
 		),
+		// TSS-secured chain: the message's own proof field is irrelevant — writing the (public) TSS address into it
+		// must not let another account through (recv from a registered relayer, ack from anybody)
+		"tss-proof-field-is-tss-address": append(append([]string{}, head...),
+			"mkclient "+tssa+" tss "+hxs(A[1].lower),
+			reg(A[1].lower, []string{"tss-a"}, []string{"0xfee0000000000000000000000000000000000003"}),
+			reg(A[2].lower, []string{"tss-a"}, []string{"relayer-X"}),
+			recv(sg(A[2]), tssa, 1, 1)+" pf="+hxs(A[1].lower),
+			recv(sg(A[3]), tssa, 1, 1)+" pf="+hxs(A[1].lower),
+			recv(sg(A[2]), tssa, 1, 0)+" pf="+hxs(A[2].lower),
+			recv(sg(A[1]), tssa, 1, 0)+" pf=-",
+			recv(sg(A[1]), tssa, 2, 0)+" pf=deadbeef",
+			"mkcommit "+T+" "+tssa+" 1",
+			ack(sg(A[3]), tssa, 1, 1, "0xfee0000000000000000000000000000000000003")+" pf="+hxs(A[1].lower),
+			ack(sg(A[2]), tssa, 1, 1, "0xfee0000000000000000000000000000000000003")+" pf="+hxs(A[1].lower),
+			ack(sg(A[3]), tssa, 1, 1, "0xfee0000000000000000000000000000000000003")+" pf=-",
+			ack(sg(A[1]), tssa, 1, 0, "0xFEE0000000000000000000000000000000000003")+" pf="+hxs(A[3].lower),
+		),
 		// the contract level: call data inside a relayed packet and through `execute`
 		"evm-nested-paths": {
 			"evmreset",
